@@ -33,7 +33,9 @@
 (* the call.  Deviations: "SkipFlushWhenFull" (the final Flush is guarded  *)
 (* by Available() > 0 - seeded C12-h), "OverwriteErr" (the streaming loop  *)
 (* keeps going and a later successful piece overwrites the error - seeded  *)
-(* C12-i).                                                                 *)
+(* C12-i), "ErrOnlyIfShort" (the streaming loop looks at the error only    *)
+(* when the count is short; cfg.full = the failing call takes all its      *)
+(* bytes and still returns an error - seeded C12-l).                       *)
 (***************************************************************************)
 EXTENDS Integers, Sequences, FiniteSets, TLC
 
@@ -61,7 +63,7 @@ Total(ws) == LET RECURSIVE S(_) S(i) == IF i > Len(ws) THEN 0 ELSE ws[i] + S(i +
 \* Returns <<delivered, failed, h'>>
 UnderH(u, m, h) ==
     IF cfg.K < 0 \/ u + m <= cfg.K \/ (cfg.once /\ h) THEN <<m, FALSE, h>>
-    ELSE IF cfg.once THEN <<0, TRUE, TRUE>>
+    ELSE IF cfg.once THEN <<IF cfg.full THEN m ELSE 0, TRUE, TRUE>>     \* full: every byte taken AND an error returned
     ELSE <<IF cfg.K > u THEN cfg.K - u ELSE 0, TRUE, h>>
 
 \* bufio.Writer.Flush on state st = [buf, err, under]
@@ -85,10 +87,10 @@ BWrite(st, m) ==
     ELSE [st EXCEPT !.buf = @ + m]
 
 FInit ==
-    /\ cfg \in {c \in [ws : WriteLists, B : BufSizes, K : -1..9, C : -1..9, once : BOOLEAN, direct : BOOLEAN] :
+    /\ cfg \in {c \in [ws : WriteLists, B : BufSizes, K : -1..9, C : -1..9, once : BOOLEAN, full : BOOLEAN, direct : BOOLEAN] :
                     /\ c.K <= Total(c.ws) + 1 /\ c.C <= Total(c.ws) + 1
                     /\ (c.K >= 0 => c.C = -1)            \* either a failing writer or a close point
-                    /\ (c.once => c.K >= 0)
+                    /\ (c.once => c.K >= 0) /\ (c.full => c.once)
                     /\ (c.direct => c.C = -1 /\ c.B = 1)} \* Segment.WriteTo has no close channel; B is irrelevant
     /\ hit = FALSE
     /\ wi = 1 /\ buf = 0 /\ err = FALSE /\ under = 0
@@ -108,7 +110,9 @@ Produce ==
        ELSE LET st == IF cfg.direct
                       THEN LET r == UnderH(under, cfg.ws[wi], hit) IN        \* a piece of the data section, unbuffered
                            [buf |-> 0, under |-> under + r[1], h |-> r[3],
-                            err |-> IF "OverwriteErr" \in Dev THEN r[2] ELSE (err \/ r[2])]
+                            err |-> IF "OverwriteErr" \in Dev THEN r[2]
+                                    ELSE IF "ErrOnlyIfShort" \in Dev THEN (err \/ (r[2] /\ r[1] < cfg.ws[wi]))    \* seeded C12-l
+                                    ELSE (err \/ r[2])]
                       ELSE BWrite(St, cfg.ws[wi])
             IN
             /\ buf' = st.buf /\ err' = st.err /\ under' = st.under /\ hit' = st.h
